@@ -93,13 +93,6 @@ theorem resize_converges {s : State} (h : Reachable repaired s) (hk : 0 < s.kill
 example : ∃ s, Reachable repaired s ∧ 0 < s.kill ∧ 0 < s.live :=
   ⟨_, ⟨[.swcUp 2, .swcDown 0], rfl⟩, by decide, by decide⟩
 
-theorem running_nil_of_count {pcs : List PC} (h : cntOf pcs .run = 0) : pcs.filterMap PC.task? = [] := by
-  simp only [cntOf, List.countP_eq_zero] at h
-  rw [List.filterMap_eq_nil_iff]
-  intro p hp
-  have := h p hp
-  cases p <;> simp_all [PC.task?, PC.cls]
-
 /-- **WaitAll is sound.** If the pool has a worker and the exit condition of WaitAll's loop holds on
     its snapshot (all workers registered idle, queue size 0), then no task is queued and none is
     being run — in *any* state, since idle registration is a function of the worker's program point. -/
